@@ -353,6 +353,116 @@ def cmdOut (c : RCfg) : Cmd → List Rec → List Rec
 def outDumpRaw (c : RCfg) (rs : List Rec) : List Rec :=
   runSteps (stepA c) (FS.init c) (rs.filter fun r => inRange c r.time)
 
+/-! ## 4. several tasks (threads) in one data directory
+
+`fstack_enabled` is one global switch; everything else is per task.  read_user_stack hands out
+the record with the smallest time stamp among the heads of the per-task look-ahead lists
+(lowest task index on ties).  No theorems here: validated by the correspondence run only. -/
+
+/-- index of the stream whose head has the smallest time stamp (strict `<`: lowest index on ties) -/
+def pickMin : List (List Rec) → Nat → Option (Nat × Nat) → Option Nat
+  | [], _, best => best.map (·.1)
+  | [] :: rest, i, best => pickMin rest (i + 1) best
+  | (r :: _) :: rest, i, best =>
+    match best with
+    | none => pickMin rest (i + 1) (some (i, r.time))
+    | some (j, t) => if r.time < t then pickMin rest (i + 1) (some (i, r.time)) else pickMin rest (i + 1) (some (j, t))
+
+def popAt : List (List Rec) → Nat → Option (Rec × List (List Rec))
+  | [], _ => none
+  | l :: rest, 0 => match l with | [] => none | r :: l' => some (r, l' :: rest)
+  | l :: rest, i + 1 => (popAt rest i).map fun p => (p.1, l :: p.2)
+
+def mergeFuel : Nat → List (List Rec) → List (Nat × Rec)
+  | 0, _ => []
+  | n + 1, ss =>
+    match pickMin ss 0 none with
+    | none => []
+    | some i =>
+      match popAt ss i with
+      | none => []
+      | some (r, ss') => (i, r) :: mergeFuel n ss'
+
+def mergeStreams (ss : List (List Rec)) : List (Nat × Rec) :=
+  mergeFuel (ss.foldl (fun n l => n + l.length) 0) ss
+
+/-- write the global switch into every task's copy -/
+def syncEn (en : Bool) (ts : List FS) : List FS := ts.map fun s => { s with enabled := en }
+
+def tagged (i : Nat) (rs : List Rec) : List (Nat × Rec) := rs.map fun r => (i, r)
+
+/-- a per-record loop (report/graph/dump, script) over the merged stream -/
+def stepM (step : FS → Rec → FS × List Rec) (ts : List FS) (i : Nat) (r : Rec) : List FS × List (Nat × Rec) :=
+  match ts[i]? with
+  | none => (ts, [])
+  | some s => let p := step s r; (syncEn p.1.enabled (ts.set i p.1), tagged i p.2)
+
+def runM (step : FS → Rec → FS × List Rec) : List FS → List (Nat × Rec) → List (Nat × Rec)
+  | _, [] => []
+  | ts, (i, r) :: rest => (stepM step ts i r).2 ++ runM step (stepM step ts i r).1 rest
+
+/-- replay over several tasks: the pending ENTRY belongs to task `j`; fstack_skip also looks at, and
+    consumes, filtered records of the other tasks -/
+structure RSM where
+  ts : List FS
+  pend : Option (Nat × Rec × Nat) := none
+
+def mainBM (c : RCfg) (ts : List FS) (i : Nat) (r : Rec) : RSM × List (Nat × Rec) :=
+  match ts[i]? with
+  | none => ({ ts := ts }, [])
+  | some s =>
+    let q := stepBmain c s r
+    ({ ts := syncEn q.1.fs.enabled (ts.set i q.1.fs), pend := q.1.pend.map fun p => (i, p.1, p.2) }, tagged i q.2)
+
+/-- print the pending line of task `j` and do its fstack_update(ENTRY) -/
+def flushBM (ts : List FS) (j : Nat) : List FS :=
+  match ts[j]? with
+  | none => ts
+  | some s => ts.set j (updEntry s)
+
+def stepBM (c : RCfg) (s : RSM) (i : Nat) (r : Rec) : RSM × List (Nat × Rec) :=
+  match s.pend with
+  | none => mainBM c s.ts i r
+  | some (j, e, d) =>
+    match s.ts[i]? with
+    | none => (s, [])
+    | some fi =>
+      let brk : Bool := i == j && decide (r.depth ≤ e.depth)
+      if brk && r.type = 1 && r.depth == e.depth then
+        ({ ts := s.ts.set i (fsExit c (account fi r)) }, [(j, shown e d), (i, shown r d)])
+      else if brk || r.type = 3 || !((isPlt c r && r.type ≤ 1) || checkSkip c fi r) then
+        let q := mainBM c (flushBM s.ts j) i r
+        (q.1, (j, shown e d) :: q.2)
+      else
+        let s1 := account fi r
+        let s2 := if r.type = 0 then (fsEntry c s1 r.addr).1 else if r.type = 1 then fsExit c s1 else s1
+        let ts2 := syncEn s2.enabled (s.ts.set i s2)
+        if !s2.enabled then ({ ts := flushBM ts2 j }, [(j, shown e d)]) else ({ ts := ts2, pend := some (j, e, d) }, [])
+
+def runBM (c : RCfg) : RSM → List (Nat × Rec) → List (Nat × Rec)
+  | s, [] => match s.pend with | some (j, e, d) => [(j, shown e d)] | none => []
+  | s, (i, r) :: rest => (stepBM c s i r).2 ++ runBM c (stepBM c s i r).1 rest
+
+/-- the calls a command shows for a data directory with several task files -/
+def cmdOutM (c : RCfg) (cmd : Cmd) (files : List (List Rec)) : List (Nat × Rec) :=
+  let merged := mergeStreams (files.map (lookahead c))
+  let ts := files.map fun _ => FS.init c
+  match cmd with
+  | .replay => runBM c { ts := ts } merged
+  | .script => runM (stepC c) ts merged
+  | _ => runM (stepA c) ts merged
+
+/-- raw dump walks the task files one after the other; the global switch carries over -/
+def dumpRawM (c : RCfg) : Bool → Nat → List (List Rec) → List (Nat × Rec)
+  | _, _, [] => []
+  | en, i, f :: rest =>
+    let p := run0 c { FS.init c with enabled := en } (f.filter fun r => inRange c r.time)
+    tagged i p.2 ++ dumpRawM c p.1 (i + 1) rest
+where
+  run0 (c : RCfg) : FS → List Rec → Bool × List Rec
+    | s, [] => (s.enabled, [])
+    | s, r :: rs => let q := stepA c s r; let t := run0 c q.1 rs; (t.1, q.2 ++ t.2)
+
 /-! ## 3. the documented selection, on call trees -/
 
 /-- -t / time= / trace / -C on call trees: a call stays iff it ran at least the active
